@@ -13,8 +13,8 @@ func init() {
 
 type dcAnchors struct {
 	store, storeFiles, storeFile, storeCompressed, storeCompressed2, ensureStoreReady *ssa.Function
-	retrieve, retrieveFiles, retrieveCompressed, ensureRetrieveReady                 *ssa.Function
-	getPath, getFullPath, markDir, isMarked, clean, shouldClean, tarHeader           *ssa.Function
+	retrieve, retrieveFiles, retrieveCompressed, ensureRetrieveReady                  *ssa.Function
+	getPath, getFullPath, markDir, isMarked, clean, shouldClean, tarHeader            *ssa.Function
 }
 
 func (p *Prog) dirCache(r *Report, rule string) *dcAnchors {
